@@ -1,5 +1,5 @@
 import ProcSim.Lemmas.SimCore
-import ProcSim.Lemmas.Routes
+import ProcSim.Lemmas.HazardsRoutesSnap
 import ProcSim.Props.C19
 /-!
 # Register hazards: the access plan, the queue invariant and what it implies (C01, C02)
@@ -1181,8 +1181,8 @@ theorem mem_dedup {α : Type} [DecidableEq α] {l : List α} {a : α} : a ∈ de
     · simp [List.mem_filter, ih, e]
 
 theorem routeLocksOK_iff {r : List (UnitM N)} (h : routeLocksOK r = true) :
-    ∃ a b, a ≤ b ∧ (∀ k (v : UnitM N), r[k]? = some v → v.rd = true → k = a) ∧
-      (∀ k (v : UnitM N), r[k]? = some v → v.wr = true → k = b) ∧
+    ∃ a b : Nat, a ≤ b ∧ (∀ (k : Nat) (v : UnitM N), r[k]? = some v → v.rd = true → k = a) ∧
+      (∀ (k : Nat) (v : UnitM N), r[k]? = some v → v.wr = true → k = b) ∧
       (∃ v : UnitM N, r[a]? = some v ∧ v.rd = true) := by
   unfold routeLocksOK at h
   simp only at h
